@@ -1383,7 +1383,7 @@ impl SourceTextModule {
 
             //     d. If module.[[PendingAsyncDependencies]] = 0, perform ExecuteAsyncModule(module).
             if pending_async_dependencies == 0 {
-                self.execute_async(module_self, context);
+                self.execute_async(module_self, context)?;
             }
         } else {
             // 13. Else,
@@ -1472,7 +1472,7 @@ impl SourceTextModule {
     /// Abstract operation [`ExecuteAsyncModule ( module )`][spec].
     ///
     /// [spec]: https://tc39.es/ecma262/#sec-execute-async-module
-    fn execute_async(&self, module_self: &Module, context: &mut Context) {
+    fn execute_async(&self, module_self: &Module, context: &mut Context) -> JsResult<()> {
         // 1. Assert: module.[[Status]] is either evaluating or evaluating-async.
         debug_assert!(matches!(
             &*self.status.borrow(),
@@ -1486,7 +1486,7 @@ impl SourceTextModule {
             &context.intrinsics().constructors().promise().constructor(),
             context,
         )
-        .expect("cannot fail for the %Promise% intrinsic");
+        .js_expect("cannot fail for the %Promise% intrinsic")?;
         let promise = capability
             .promise
             .clone()
@@ -1537,8 +1537,11 @@ impl SourceTextModule {
 
         // 9. Perform ! module.ExecuteModule(capability).
         // 10. Return unused.
+        // NOTE: a script-visible error ends up in `capability`; only an error that scripts
+        // cannot catch (a runtime limit) comes back from here, and the host must see it.
         self.execute(module_self, Some(capability), context)
-            .expect("async modules cannot directly throw");
+            .js_expect("async modules cannot directly throw")?;
+        Ok(())
     }
 
     /// Abstract operation [`GatherAvailableAncestors ( module, execList )`][spec].
@@ -2164,7 +2167,7 @@ fn async_module_execution_fulfilled(module: &Module, context: &mut Context) -> J
         let has_tla = m_src.code.has_tla;
         if has_tla {
             // i. Perform ExecuteAsyncModule(m).
-            m_src.execute_async(&m, context);
+            m_src.execute_async(&m, context)?;
             continue;
         }
         // c. Else,
